@@ -37,7 +37,7 @@ type Input struct {
 func init() {
 	run.Register(&run.Check{
 		ID:   "C19",
-		Rule: "class cases: each of ~40 error-raising constructs (ES5 8.7, 11.2, 11.8.6-7, 15.1.2.1, 15.3.2.1, 15.4, 15.7.4, 15.12, 15.1.3, 15.2.3 ...) is executed inside generated nesting (function/method/constructor/callback/eval/getter) both caught in-script (name, instanceof chain, prototype identity, non-empty string message, String(e)) and uncaught (Run's error text = 'Name: message'); trace cases: chains of 1-12 frames of every call form with call sites at generated (line, column), raising construct at a known position, x trace limits x file names: every frame line is compared; syntax cases: one offending token at a generated (line, column) through ParseFile/Run/eval/Function. Non-trivial = trace with >= 3 frames or >= 2 call forms, every class and syntax case; distinct by source text",
+		Rule: "class cases: each of ~70 error-raising constructs (ES5 8.7, 11.2, 11.8.6-7, 15.1.2.1, 15.3.2.1, 15.4, 15.7.4, 15.12, 15.1.3, 15.2.3 ...) is executed inside generated nesting (function/method/constructor/callback/eval/getter) both caught in-script (name, instanceof chain, prototype identity, non-empty string message, String(e)) and uncaught (Run's error text = 'Name: message'); trace cases: chains of 1-12 frames of every call form with call sites at generated (line, column), raising construct at a known position, x trace limits x file names: every frame line is compared; syntax cases: one offending token at a generated (line, column) through ParseFile/Run/eval/Function. Non-trivial = trace with >= 3 frames, every class and syntax case; distinct by source text",
 		Assumptions: []string{
 			"call-site convention of this code base (pinned by error_test.go/function_stack_test.go): innermost frame = position of the raising construct (unresolvable identifier; base of a failed member access; callee of the new/call that built a thrown Error), outer frames = first character of the callee expression of the call in progress; label = the function's own name; natives '<native code>'; columns in bytes, lines by LF",
 			"message texts are not compared (ES5 does not fix them): only non-emptiness and the Name: message composition",
